@@ -15,13 +15,13 @@ import (
 
 // Val is a JSON-serialisable model of a CBOR / JSON value.
 type Val struct {
-	K string  `json:"k"`           // int | neg | str | bytes | bool | null | float | list | map | link | badlink | undef | tag
-	I uint64  `json:"i,omitempty"` // int / neg magnitude / tag number
-	S string  `json:"s,omitempty"` // str
-	B []byte  `json:"b,omitempty"` // bytes / badlink payload
-	L []Val   `json:"l,omitempty"` // list items / tag content (1 item)
-	M []KV    `json:"m,omitempty"` // map entries in written order
-	C int     `json:"c,omitempty"` // link: index into CID table
+	K string `json:"k"`           // int | neg | str | bytes | bool | null | float | list | map | link | badlink | undef | tag
+	I uint64 `json:"i,omitempty"` // int / neg magnitude / tag number
+	S string `json:"s,omitempty"` // str
+	B []byte `json:"b,omitempty"` // bytes / badlink payload
+	L []Val  `json:"l,omitempty"` // list items / tag content (1 item)
+	M []KV   `json:"m,omitempty"` // map entries in written order
+	C int    `json:"c,omitempty"` // link: index into CID table
 }
 
 type KV struct {
